@@ -1642,4 +1642,830 @@ theorem normalise_asIs_seq (ts : List Inter) :
 /-- the shape of round d's seeded change: `list(...)` before the constructor splits a bare str -/
 theorem normalise_listOf_splits : normalise [Norm.listOf, Norm.wrapStr] (.str ['x', 'a']) ≠ (Shape.str ['x', 'a']).meaning := by decide
 
+section LinUCB
+
+/-! ## LinUCB: permutation equivariance of the linear algebra -/
+
+theorem lin_zipWith_map_map {α β γ : Type} (g : α → β → γ) (a : Nat → α) (b : Nat → β) (p : List Nat) :
+    List.zipWith g (p.map a) (p.map b) = p.map (fun i => g (a i) (b i)) := by
+  induction p with
+  | nil => rfl
+  | cons x xs ih => simp [ih]
+
+theorem lin_getD_map_of_lt {α β : Type} (g : α → β) (l : List α) (i : Nat) (d : α) (d' : β)
+    (h : i < l.length) : (l.map g).getD i d' = g (l.getD i d) := by
+  simp [List.getD_eq_getElem?_getD, List.getElem?_eq_getElem h]
+
+theorem lin_getD_zipWith_of_lt {α β γ : Type} (g : α → β → γ) (l₁ : List α) (l₂ : List β) (i : Nat)
+    (d₁ : α) (d₂ : β) (d : γ) (h₁ : i < l₁.length) (h₂ : i < l₂.length) :
+    (List.zipWith g l₁ l₂).getD i d = g (l₁.getD i d₁) (l₂.getD i d₂) := by
+  simp [List.getD_eq_getElem?_getD, List.getElem?_eq_getElem h₁, List.getElem?_eq_getElem h₂,
+    List.getElem?_zipWith]
+
+theorem lin_perm_lt {p : List Nat} {n : Nat} (hp : p.Perm (List.range n)) : ∀ i ∈ p, i < n := by
+  intro i hi
+  exact List.mem_range.mp (hp.mem_iff.mp hi)
+
+theorem length_permV (p : List Nat) (v : List Rat) : (permV p v).length = p.length := by
+  simp [permV]
+
+theorem zipWith_permV (g : Rat → Rat → Rat) {p : List Nat} {n : Nat} (hp : ∀ i ∈ p, i < n)
+    {u v : List Rat} (hu : u.length = n) (hv : v.length = n) :
+    List.zipWith g (permV p u) (permV p v) = permV p (List.zipWith g u v) := by
+  unfold permV
+  rw [lin_zipWith_map_map]
+  apply List.map_congr_left
+  intro i hi
+  have := hp i hi
+  rw [lin_getD_zipWith_of_lt g u v i 0 0 0 (by omega) (by omega)]
+
+theorem zipWith_mul_eq_range {n : Nat} {u v : List Rat} (hu : u.length = n) (hv : v.length = n) :
+    List.zipWith (· * ·) u v = (List.range n).map (fun i => u.getD i 0 * v.getD i 0) := by
+  apply List.ext_getElem
+  · simp [hu, hv]
+  · intro i h1 h2
+    have h3 : i < n := by simpa using h2
+    simp [List.getD_eq_getElem?_getD, List.getElem?_eq_getElem (show i < u.length by omega),
+      List.getElem?_eq_getElem (show i < v.length by omega)]
+
+theorem dotQ_perm' {p : List Nat} {n : Nat} (hp : p.Perm (List.range n)) {u v : List Rat}
+    (hu : u.length = n) (hv : v.length = n) : dotQ (permV p u) (permV p v) = dotQ u v := by
+  unfold dotQ
+  rw [zipWith_mul_eq_range hu hv]
+  unfold permV
+  rw [lin_zipWith_map_map]
+  exact (hp.map _).sum_eq
+
+theorem matVecQ_perm' {p : List Nat} {n : Nat} (hp : p.Perm (List.range n)) {M : List (List Rat)}
+    {f : List Rat} (hM : M.length = n) (hrows : ∀ row ∈ M, row.length = n) (hf : f.length = n) :
+    matVecQ (permM p M) (permV p f) = permV p (matVecQ M f) := by
+  unfold matVecQ permM
+  rw [List.map_map]
+  show _ = List.map _ p
+  apply List.map_congr_left
+  intro i hi
+  have hi' := lin_perm_lt hp i hi
+  have hrow : (M.getD i []).length = n := by
+    apply hrows
+    rw [List.getD_eq_getElem?_getD, List.getElem?_eq_getElem (by omega)]
+    simp
+  rw [lin_getD_map_of_lt (fun row => dotQ row f) M i [] 0 (by omega)]
+  exact dotQ_perm' hp hrow hf
+
+theorem length_matVecQ (M : List (List Rat)) (f : List Rat) : (matVecQ M f).length = M.length := by
+  simp [matVecQ]
+
+theorem init_wf' (d : Nat) : (LinState.init d).WF d := by
+  refine ⟨by simp [LinState.init], by simp [LinState.init, identityQ], ?_⟩
+  intro row hrow
+  simp only [LinState.init, identityQ, List.mem_map] at hrow
+  obtain ⟨i, _, rfl⟩ := hrow
+  simp
+
+theorem learn_wf' {n : Nat} {s : LinState} (hs : s.WF n) {f : List Rat} (r : Rat) :
+    (s.learn f r).WF n := by
+  obtain ⟨h1, h2, h3⟩ := hs
+  refine ⟨by simp [LinState.learn, length_matVecQ, h1, h2], by simp [LinState.learn, length_matVecQ, h2], ?_⟩
+  intro row hrow
+  obtain ⟨i, hi, rfl⟩ := List.mem_iff_getElem.mp hrow
+  simp only [LinState.learn, List.getElem_zipWith, List.length_zipWith, length_matVecQ, h2]
+  rw [h3 _ (List.getElem_mem _)]
+  simp
+
+theorem perm_wf' {n : Nat} {p : List Nat} (hp : p.length = n) (s : LinState) : (s.perm p).WF n := by
+  refine ⟨by simp [LinState.perm, length_permV, hp], by simp [LinState.perm, permM, hp], ?_⟩
+  intro row hrow
+  simp only [LinState.perm, permM, List.mem_map] at hrow
+  obtain ⟨i, _, rfl⟩ := hrow
+  simp [length_permV, hp]
+
+theorem learn_perm' {n : Nat} {s : LinState} (hs : s.WF n) {f : List Rat} (hf : f.length = n)
+    {p : List Nat} (hp : p.Perm (List.range n)) (r : Rat) :
+    (s.perm p).learn (permV p f) r = (s.learn f r).perm p := by
+  obtain ⟨h1, h2, h3⟩ := hs
+  have hlt := lin_perm_lt hp
+  have hw : (matVecQ s.ainv f).length = n := by rw [length_matVecQ, h2]
+  have e1 : dotQ (permV p s.theta) (permV p f) = dotQ s.theta f := dotQ_perm' hp h1 hf
+  have e2 : matVecQ (permM p s.ainv) (permV p f) = permV p (matVecQ s.ainv f) :=
+    matVecQ_perm' hp h2 h3 hf
+  have e3 : dotQ (permV p (matVecQ s.ainv f)) (permV p f) = dotQ (matVecQ s.ainv f) f :=
+    dotQ_perm' hp hw hf
+  simp only [LinState.learn, LinState.perm, e1, e2, e3]
+  congr 1
+  · exact zipWith_permV _ hlt h1 hw
+  · generalize matVecQ s.ainv f = w at hw
+    generalize (1 + dotQ w f) = c
+    show List.zipWith _ (List.map _ p) (List.map _ p) = List.map _ p
+    rw [lin_zipWith_map_map]
+    apply List.map_congr_left
+    intro i hi
+    have hi' := hlt i hi
+    have hrow : (s.ainv.getD i []).length = n := by
+      apply h3
+      rw [List.getD_eq_getElem?_getD, List.getElem?_eq_getElem (by omega)]
+      simp
+    rw [lin_getD_zipWith_of_lt _ s.ainv w i [] 0 [] (by omega) (by omega)]
+    exact zipWith_permV _ hlt hrow hw
+
+theorem score_perm' {n : Nat} {s : LinState} (hs : s.WF n) {f : List Rat} (hf : f.length = n)
+    {p : List Nat} (hp : p.Perm (List.range n)) :
+    (s.perm p).score (permV p f) = s.score f := by
+  obtain ⟨h1, h2, h3⟩ := hs
+  have hw : (matVecQ s.ainv f).length = n := by rw [length_matVecQ, h2]
+  simp only [LinState.score, LinState.perm]
+  rw [dotQ_perm' hp h1 hf, matVecQ_perm' hp h2 h3 hf, dotQ_perm' hp hw hf]
+
+theorem identityQ_getD {d i j : Nat} (hi : i < d) (hj : j < d) :
+    ((identityQ d).getD i []).getD j 0 = if i = j then 1 else 0 := by
+  unfold identityQ
+  rw [lin_getD_map_of_lt _ _ i 0 [] (by simpa using hi)]
+  rw [lin_getD_map_of_lt _ _ j 0 0 (by simpa using hj)]
+  simp [List.getD_eq_getElem?_getD, List.getElem?_range hi, List.getElem?_range hj]
+
+theorem init_perm' {d : Nat} {p : List Nat} (hp : p.Perm (List.range d)) :
+    (LinState.init d).perm p = LinState.init d := by
+  have hlen : p.length = d := by simpa using hp.length_eq
+  have hlt := lin_perm_lt hp
+  have hnd : p.Nodup := hp.nodup_iff.mpr List.nodup_range
+  unfold LinState.init LinState.perm
+  congr 1
+  · show permV p (List.replicate d 0) = List.replicate d 0
+    have h0 : ∀ i, (List.replicate d (0 : Rat)).getD i 0 = 0 := by
+      intro i
+      rw [List.getD_eq_getElem?_getD, List.getElem?_replicate]
+      split <;> rfl
+    unfold permV
+    simp only [h0, List.map_const', hlen]
+  · show permM p (identityQ d) = identityQ d
+    have e : permM p (identityQ d) = p.map (fun i => p.map (fun j => if i = j then (1 : Rat) else 0)) := by
+      unfold permM permV
+      apply List.map_congr_left
+      intro i hi
+      apply List.map_congr_left
+      intro j hj
+      exact identityQ_getD (hlt i hi) (hlt j hj)
+    rw [e]
+    unfold identityQ
+    apply List.ext_getElem
+    · simp [hlen]
+    · intro a h1 h2
+      have ha : a < p.length := by simpa using h1
+      rw [List.getElem_map, List.getElem_map, List.getElem_range]
+      apply List.ext_getElem
+      · simp [hlen]
+      · intro b h3 h4
+        have hb : b < p.length := by simpa using h3
+        rw [List.getElem_map, List.getElem_map, List.getElem_range]
+        simp only [hnd.getElem_inj_iff]
+
+theorem linRun_perm {n : Nat} {p : List Nat} (hp : p.Perm (List.range n)) (es : List LinEvent) :
+    ∀ s : LinState, s.WF n → (∀ e ∈ es, e.WF n) →
+      linRun (s.perm p) (es.map (LinEvent.perm p)) = ((linRun s es).1, (linRun s es).2.perm p) := by
+  induction es with
+  | nil => intro s _ _; rfl
+  | cons e es ih =>
+    intro s hs hes
+    have he : e.WF n := hes e (by simp)
+    have hes' : ∀ e ∈ es, e.WF n := fun e' h => hes e' (by simp [h])
+    cases e with
+    | learn f r =>
+      simp only [List.map_cons, LinEvent.perm, linRun]
+      rw [learn_perm' hs he hp r]
+      exact ih _ (learn_wf' hs r) hes'
+    | predict fs =>
+      simp only [List.map_cons, LinEvent.perm, linRun]
+      rw [ih s hs hes']
+      have : List.map (s.perm p).score (List.map (permV p) fs) = List.map s.score fs := by
+        rw [List.map_map]
+        apply List.map_congr_left
+        intro f hf
+        exact score_perm' hs (he f hf) hp
+      rw [this]
+
+theorem linucb_perm_equivariant' (d : Nat) (p : List Nat) (events : List LinEvent)
+    (hp : p.Perm (List.range d)) (hev : ∀ e ∈ events, e.WF d) :
+    (linRun (LinState.init d) (events.map (LinEvent.perm p))).1 = (linRun (LinState.init d) events).1
+    ∧ (linRun (LinState.init d) (events.map (LinEvent.perm p))).2
+        = (linRun (LinState.init d) events).2.perm p := by
+  have h := linRun_perm hp events (LinState.init d) (init_wf' d) hev
+  rw [init_perm' hp] at h
+  rw [h]
+  exact ⟨rfl, rfl⟩
+
+theorem lin_map_getD_range {α : Type} (l : List α) (d : α) :
+    (List.range l.length).map (fun i => l.getD i d) = l := by
+  apply List.ext_getElem
+  · simp
+  · intro i h1 h2
+    simp [List.getD_eq_getElem?_getD, List.getElem?_eq_getElem h2]
+
+theorem perm_index_exists' {l l' : List Rat} (h : l.Perm l') :
+    ∃ p : List Nat, p.Perm (List.range l.length) ∧ l' = permV p l := by
+  induction h with
+  | nil => exact ⟨[], by simp, rfl⟩
+  | cons x _ ih =>
+    obtain ⟨p, hp, rfl⟩ := ih
+    refine ⟨0 :: p.map Nat.succ, ?_, ?_⟩
+    · rw [List.length_cons, List.range_succ_eq_map]
+      exact (hp.map _).cons 0
+    · simp [permV, List.map_map, Function.comp_def]
+  | swap x y l =>
+    refine ⟨1 :: 0 :: (List.range l.length).map (· + 2), ?_, ?_⟩
+    · simp only [List.length_cons]
+      rw [List.range_succ_eq_map, List.range_succ_eq_map]
+      simp only [List.map_cons, List.map_map]
+      exact List.Perm.swap ..
+    · simp only [permV, List.map_cons, List.map_map, Function.comp_def]
+      simp only [List.getD_cons_succ, List.getD_cons_zero]
+      rw [lin_map_getD_range l 0]
+  | @trans l1 l2 l3 h1 h2 ih1 ih2 =>
+    obtain ⟨p1, hp1, e1⟩ := ih1
+    obtain ⟨p2, hp2, e2⟩ := ih2
+    have hl : l2.length = l1.length := h1.length_eq.symm
+    have hp1l : p1.length = l1.length := by simpa using hp1.length_eq
+    refine ⟨p2.map (fun i => p1.getD i 0), ?_, ?_⟩
+    · have h3 : (p2.map (fun i => p1.getD i 0)).Perm ((List.range p1.length).map (fun i => p1.getD i 0)) := by
+        rw [hp1l, ← hl]
+        exact hp2.map _
+      rw [lin_map_getD_range] at h3
+      exact h3.trans hp1
+    · rw [e2]
+      unfold permV
+      rw [List.map_map]
+      apply List.map_congr_left
+      intro i hi
+      have hi' : i < l2.length := lin_perm_lt hp2 i hi
+      rw [e1]
+      unfold permV
+      exact lin_getD_map_of_lt _ p1 i 0 0 (by omega)
+
+/-- non-vacuity: a concrete layout change and history satisfying the hypotheses of `linucb_perm_equivariant'` -/
+theorem linucb_example_hyps :
+    [2, 0, 1].Perm (List.range 3) ∧
+    ∀ e ∈ [LinEvent.learn [1, 2, 3] 1, .learn [0, 1, (1 : Rat) / 2] 0, .predict [[1, 0, 0], [0, 1, 1]]], e.WF 3 := by
+  refine ⟨by decide, ?_⟩
+  intro e he
+  simp only [List.mem_cons, List.not_mem_nil, or_false] at he
+  rcases he with rfl | rfl | rfl <;> simp [LinEvent.WF]
+
+theorem linucb_example_values :
+    (linRun (LinState.init 3) ([LinEvent.learn [1, 2, 3] 1, .learn [0, 1, (1 : Rat) / 2] 0,
+        .predict [[1, 0, 0], [0, 1, 1]]].map (LinEvent.perm [2, 0, 1]))).1
+      = (linRun (LinState.init 3) [LinEvent.learn [1, 2, 3] 1, .learn [0, 1, (1 : Rat) / 2] 0,
+        .predict [[1, 0, 0], [0, 1, 1]]]).1
+    ∧ (linRun (LinState.init 3) [LinEvent.learn [1, 2, 3] 1, .learn [0, 1, (1 : Rat) / 2] 0,
+        .predict [[1, 0, 0], [0, 1, 1]]]).1 ≠ [[(0, 1), (0, 2)]] := by
+  decide +kernel
+
+theorem encode_terms_order_index_perm' (mul : Rat → Rat → Rat) (one : Rat) (F : Char → List Rat)
+    {ts ts' : List (List Char)} (h : ts.Perm ts') :
+    ∃ p : List Nat, p.Perm (List.range (termsS mul one F ts).length)
+      ∧ termsS mul one F ts' = permV p (termsS mul one F ts) :=
+  perm_index_exists' (termsS_perm mul one F h)
+
+end LinUCB
+
+/-! ## Part 14 (phase 4): the explicit rounding model `roundSig` returns representable numbers exactly, hence
+`ExactOn fmul53` is a theorem, not an assumption -/
+
+theorem pow2_eq (e : Int) : pow2 e = (2 : Rat) ^ e := by
+  unfold pow2
+  split
+  · rename_i h
+    conv_rhs => rw [← Int.toNat_of_nonneg h]
+    rw [zpow_natCast]
+  · rename_i h
+    have h' : 0 ≤ -e := by omega
+    have : e = -((-e).toNat : Int) := by rw [Int.toNat_of_nonneg h']; omega
+    conv_rhs => rw [this]
+    rw [zpow_neg, zpow_natCast, one_div]
+
+theorem roundHalfEven_nat (k : Nat) : roundHalfEven (k : Rat) = k := by
+  simp [roundHalfEven, Nat.mod_one]
+
+/-- given the exponent is not above the input's own exponent, scaling, rounding and unscaling is the identity -/
+theorem rhe_exact (K : Nat) (E e : Int) (h : e ≤ E) :
+    (roundHalfEven ((K : Rat) * (2 : Rat) ^ E * pow2 (-e)) : Rat) * pow2 e = (K : Rat) * (2 : Rat) ^ E := by
+  have h2 : (2 : Rat) ≠ 0 := by norm_num
+  have hk : (K : Rat) * (2 : Rat) ^ E * pow2 (-e) = ((K * 2 ^ (E - e).toNat : Nat) : Rat) := by
+    rw [pow2_eq, mul_assoc, ← zpow_add₀ h2]
+    push_cast
+    rw [← zpow_natCast, Int.toNat_of_nonneg (by omega)]
+    congr 2
+  rw [hk, roundHalfEven_nat, pow2_eq]
+  push_cast
+  rw [← zpow_natCast, Int.toNat_of_nonneg (by omega), mul_assoc, ← zpow_add₀ h2]
+  congr 2
+  omega
+
+theorem rat_log_lb (a : Rat) (ha : 0 < a) :
+    (2 : Rat) ^ ((a.num.natAbs.log2 : Int) - (a.den.log2 : Int) - 1) ≤ a := by
+  have h2 : (2 : Rat) ≠ 0 := by norm_num
+  have hnum : 0 < a.num := Rat.num_pos.mpr ha
+  have hn : a.num.natAbs ≠ 0 := by omega
+  have h1 : ((2 ^ a.num.natAbs.log2 : Nat) : Rat) ≤ (a.num.natAbs : Rat) := by
+    exact_mod_cast Nat.log2_self_le hn
+  have h3 : ((a.den : Nat) : Rat) ≤ ((2 ^ (a.den.log2 + 1) : Nat) : Rat) := by
+    exact_mod_cast (Nat.lt_log2_self (n := a.den)).le
+  have hd : (0 : Rat) < (a.den : Rat) := by exact_mod_cast a.den_pos
+  have hcast : ((a.num.natAbs : Nat) : Rat) = ((a.num : Int) : Rat) := by
+    rw [Nat.cast_natAbs, abs_of_nonneg hnum.le]
+  refine le_trans ?_ (le_of_eq (Rat.num_div_den a))
+  rw [le_div_iff₀ hd, ← hcast]
+  push_cast at h1 h3
+  calc (2 : Rat) ^ ((a.num.natAbs.log2 : Int) - (a.den.log2 : Int) - 1) * (a.den : Rat)
+      ≤ (2 : Rat) ^ ((a.num.natAbs.log2 : Int) - (a.den.log2 : Int) - 1) * 2 ^ (a.den.log2 + 1) :=
+        mul_le_mul_of_nonneg_left h3 (by positivity)
+    _ = (2 : Rat) ^ a.num.natAbs.log2 := by
+        rw [← zpow_natCast (2 : Rat) (a.den.log2 + 1), ← zpow_add₀ h2, ← zpow_natCast]
+        congr 1; push_cast; ring
+    _ ≤ _ := h1
+
+/-- the chosen exponent scales `a` to at least `2^(prec-1)` -/
+theorem expo_lb (prec : Nat) (a : Rat) (ha : 0 < a) :
+    (2 : Rat) ^ ((prec : Int) - 1) ≤ a * pow2 (-(expo prec a)) := by
+  have h2 : (2 : Rat) ≠ 0 := by norm_num
+  have hlb := rat_log_lb a ha
+  unfold expo
+  simp only
+  split
+  · rw [pow2_eq]
+    calc (2 : Rat) ^ ((prec : Int) - 1)
+        = (2 : Rat) ^ ((a.num.natAbs.log2 : Int) - (a.den.log2 : Int) - 1)
+            * (2 : Rat) ^ (-((a.num.natAbs.log2 : Int) - (a.den.log2 : Int) - (prec : Int))) := by
+          rw [← zpow_add₀ h2]; congr 1; ring
+      _ ≤ _ := mul_le_mul_of_nonneg_right hlb (by positivity)
+  · rename_i h
+    rw [not_lt, pow2_eq] at h
+    rw [pow2_eq]
+    calc (2 : Rat) ^ ((prec : Int) - 1) = (2 : Rat) ^ prec * (2 : Rat) ^ (-1 : Int) := by
+          rw [← zpow_natCast, ← zpow_add₀ h2]; congr 1
+      _ ≤ a * (2 : Rat) ^ (-((a.num.natAbs.log2 : Int) - (a.den.log2 : Int) - (prec : Int))) * (2 : Rat) ^ (-1 : Int) :=
+          mul_le_mul_of_nonneg_right h (by positivity)
+      _ = _ := by
+          rw [mul_assoc, ← zpow_add₀ h2]; congr 2; ring
+
+/-- a number with fewer than `prec` significant bits has its own exponent at or above the chosen one -/
+theorem expo_le (prec : Nat) (K : Nat) (E : Int) (hK : K < 2 ^ prec) (hpos : 0 < (K : Rat) * (2 : Rat) ^ E) :
+    expo prec ((K : Rat) * (2 : Rat) ^ E) ≤ E := by
+  have h2 : (2 : Rat) ≠ 0 := by norm_num
+  have hlb := expo_lb prec _ hpos
+  by_contra hc
+  rw [not_le] at hc
+  rw [pow2_eq, mul_assoc, ← zpow_add₀ h2] at hlb
+  have hK' : (K : Rat) < (2 : Rat) ^ prec := by exact_mod_cast hK
+  have hz : (2 : Rat) ^ (E + -(expo prec ((K : Rat) * (2 : Rat) ^ E))) ≤ (2 : Rat) ^ (-1 : Int) :=
+    zpow_le_zpow_right₀ (by norm_num) (by omega)
+  have hlt : (K : Rat) * (2 : Rat) ^ (E + -(expo prec ((K : Rat) * (2 : Rat) ^ E))) < (2 : Rat) ^ prec * (2 : Rat) ^ (-1 : Int) :=
+    mul_lt_mul hK' hz (by positivity) (by positivity)
+  have : (2 : Rat) ^ prec * (2 : Rat) ^ (-1 : Int) = (2 : Rat) ^ ((prec : Int) - 1) := by
+    rw [← zpow_natCast, ← zpow_add₀ h2]; congr 1
+  rw [this] at hlt
+  exact absurd hlb (not_le.mpr hlt)
+
+theorem roundSig_pos_exact (prec : Nat) (K : Nat) (E : Int) (hK : K < 2 ^ prec) (hpos : 0 < (K : Rat) * (2 : Rat) ^ E) :
+    roundSig prec ((K : Rat) * (2 : Rat) ^ E) = (K : Rat) * (2 : Rat) ^ E
+    ∧ roundSig prec (-((K : Rat) * (2 : Rat) ^ E)) = -((K : Rat) * (2 : Rat) ^ E) := by
+  have hle := expo_le prec K E hK hpos
+  have hex := rhe_exact K E _ hle
+  constructor
+  · unfold roundSig
+    rw [if_neg hpos.ne', if_neg (not_lt.mpr hpos.le)]
+    simp only [if_neg (not_lt.mpr hpos.le)]
+    exact hex
+  · have hneg : -((K : Rat) * (2 : Rat) ^ E) < 0 := by linarith
+    unfold roundSig
+    rw [if_neg hneg.ne, if_pos hneg]
+    simp only [if_pos hneg, neg_neg]
+    rw [hex]
+
+theorem roundSig_nat_exact (prec : Nat) (hp : 1 ≤ prec) (K : Nat) (E : Int) (hK : K ≤ 2 ^ prec) :
+    roundSig prec ((K : Rat) * (2 : Rat) ^ E) = (K : Rat) * (2 : Rat) ^ E
+    ∧ roundSig prec (-((K : Rat) * (2 : Rat) ^ E)) = -((K : Rat) * (2 : Rat) ^ E) := by
+  have h2 : (2 : Rat) ≠ 0 := by norm_num
+  rcases Nat.eq_zero_or_pos K with h0 | h0
+  · subst h0; simp [roundSig]
+  rcases Nat.lt_or_ge K (2 ^ prec) with hlt | hge
+  · exact roundSig_pos_exact prec K E hlt (by have : (0 : Rat) < (K : Rat) := by exact_mod_cast h0
+                                              positivity)
+  · have hKe : K = 2 ^ prec := le_antisymm hK hge
+    have hrw : (K : Rat) * (2 : Rat) ^ E = ((1 : Nat) : Rat) * (2 : Rat) ^ (E + prec) := by
+      rw [hKe, zpow_add₀ h2, zpow_natCast]; push_cast; ring
+    rw [hrw]
+    exact roundSig_pos_exact prec 1 (E + prec) (Nat.one_lt_two_pow (by omega)) (by positivity)
+
+/-- a number with at most `prec` significant bits is a fixed point of rounding to `prec` bits -/
+theorem roundSig_exact (prec : Nat) (hp : 1 ≤ prec) (q : Rat) (m e : Int) (hm : |m| ≤ (2 : Int) ^ prec)
+    (hq : q = (m : Rat) * (2 : Rat) ^ e) : roundSig prec q = q := by
+  have hK : m.natAbs ≤ 2 ^ prec := by
+    have : ((m.natAbs : Nat) : Int) ≤ ((2 ^ prec : Nat) : Int) := by rw [Int.natCast_natAbs]; exact_mod_cast hm
+    exact_mod_cast this
+  obtain ⟨h1, h2⟩ := roundSig_nat_exact prec hp m.natAbs e hK
+  rcases le_total 0 m with h | h
+  · have : (m : Rat) = ((m.natAbs : Nat) : Rat) := by rw [Nat.cast_natAbs, abs_of_nonneg h]
+    rw [hq, this]; exact h1
+  · have : (m : Rat) = -((m.natAbs : Nat) : Rat) := by rw [Nat.cast_natAbs, abs_of_nonpos h]; push_cast; ring
+    rw [hq, this, neg_mul]; exact h2
+
+theorem exactOn_fmul53 : ExactOn fmul53 := by
+  intro a b h
+  obtain ⟨m, e, hm, _, hq⟩ := h
+  exact roundSig_exact 53 (by norm_num) (a * b) m e (by exact_mod_cast hm) hq
+
+theorem encode_float53_exact_dyadic' (M E : Nat) (hM : 1 ≤ M)
+    (is : List Inter) (kw : List (Char × NsVal)) (hne : ∀ t ∈ strTerms is, t ≠ [])
+    (hb : M ^ maxDeg is ≤ 2 ^ 53) (he : maxDeg is * E ≤ 970)
+    (hd : ∀ c, ∀ v ∈ featsDense kw c, Dy M E v) (hs : ∀ c, ∀ p ∈ featsSparse kw c, Dy M E p.2) :
+    encodeG fmul53 Cfg.fixed is kw = encode Cfg.fixed is kw :=
+  encode_float_exact_dyadic' exactOn_fmul53 M E hM is kw hne hb he hd hs
+
+/-! ## Phase 4: translator obligation for the `learn` bodies -/
+
+/-- the numpy-operation-by-operation reading of `learn` equals the model's `LinState.learn` (zipWith/map algebra) -/
+theorem learnAlt_eq (s : LinState) (f : List Rat) (reward : Rat) : s.learnAlt f reward = s.learn f reward := by
+  simp only [LinState.learnAlt, LinState.learn, List.zipWith_map_right, List.map_map, Function.comp_def]
+
+/-- a `learn` program that evaluates (by computation) to `learnAlt` is the model's `learn` -/
+theorem learn_prog_sound {prog : List LStmt} {s : LinState} {f : List Rat} {r : Rat}
+    (h : runLearn prog s f r [] = some (s.learnAlt f r)) : runLearn prog s f r [] = some (s.learn f r) :=
+  h.trans (congrArg some (learnAlt_eq s f r))
+
+/-- hence a whole history run with such a program is the model's history -/
+theorem linRunProg_eq {prog : List LStmt} (h : ∀ s f r, runLearn prog s f r [] = some (LinState.learn s f r))
+    (s : LinState) (es : List LinEvent) : linRunProg prog s es = some (linRun s es).2 := by
+  induction es generalizing s with
+  | nil => rfl
+  | cons e es ih =>
+    cases e with
+    | learn f r => simp only [linRunProg, h, linRun]; exact ih _
+    | predict fs => simp only [linRunProg, linRun]; exact ih _
+
+/-! ## Part 15 (phase 4): exactly when named monomials of a sparse call collide (`sparseMonos`, `collides` in Model) -/
+section Collide
+variable {κ γ : Type} [DecidableEq κ]
+
+theorem hasDup_eq_false_iff {β : Type} [DecidableEq β] (l : List β) : hasDup l = false ↔ l.Nodup := by
+  induction l with
+  | nil => simp [hasDup]
+  | cons x r ih => simp [hasDup, ih]
+
+theorem hasDup_iff {β : Type} [DecidableEq β] (l : List β) : hasDup l = true ↔ ¬ l.Nodup := by
+  rw [← hasDup_eq_false_iff]; cases hasDup l <;> simp
+
+theorem dictSet_length (k : κ) (v : γ) : ∀ (d : List (κ × γ)),
+    (dictSet k v d).length = if k ∈ d.map (·.1) then d.length else d.length + 1 := by
+  intro d
+  induction d with
+  | nil => simp [dictSet]
+  | cons kv d ih =>
+    simp only [dictSet, List.map_cons, List.mem_cons]
+    by_cases h : kv.1 = k
+    · simp [h]
+    · have h' : ¬ k = kv.1 := fun e => h e.symm
+      rw [if_neg h]
+      simp only [List.length_cons, ih, h', false_or]
+      split <;> rfl
+
+theorem dictSet_keys_mem (k : κ) (v : γ) (k' : κ) : ∀ (d : List (κ × γ)),
+    k' ∈ (dictSet k v d).map (·.1) ↔ k' = k ∨ k' ∈ d.map (·.1) := by
+  intro d
+  induction d with
+  | nil => simp [dictSet]
+  | cons kv d ih =>
+    simp only [dictSet]
+    by_cases h : kv.1 = k
+    · rw [if_pos h]; simp only [List.map_cons, List.mem_cons]; rw [h]; tauto
+    · rw [if_neg h]; simp only [List.map_cons, List.mem_cons, ih]; tauto
+
+theorem dictOf_keys_mem (k : κ) (l : List (κ × γ)) :
+    k ∈ (dictOf l).map (·.1) ↔ k ∈ l.map (·.1) := by
+  induction l using List.reverseRecOn with
+  | nil => simp [dictOf]
+  | append_singleton p kv ih =>
+    rw [dictOf_append_singleton, dictSet_keys_mem, ih]
+    simp only [List.map_append, List.mem_append, List.map_cons, List.map_nil, List.mem_singleton]
+    tauto
+
+theorem dictOf_length_le (l : List (κ × γ)) : (dictOf l).length ≤ l.length := by
+  induction l using List.reverseRecOn with
+  | nil => simp [dictOf]
+  | append_singleton p kv ih =>
+    rw [dictOf_append_singleton, dictSet_length, List.length_append, List.length_singleton]
+    split <;> omega
+
+/-- `dict(pairs)` has as many entries as there are pairs exactly when no two pairs share a key -/
+theorem dictOf_length_eq_iff_nodup' (l : List (κ × γ)) :
+    (dictOf l).length = l.length ↔ (l.map (·.1)).Nodup := by
+  induction l using List.reverseRecOn with
+  | nil => simp [dictOf]
+  | append_singleton p kv ih =>
+    rw [dictOf_append_singleton, dictSet_length, List.length_append, List.length_singleton,
+      List.map_append, List.map_singleton, List.nodup_append]
+    have hle := dictOf_length_le p
+    by_cases hm : kv.1 ∈ (dictOf p).map (·.1)
+    · rw [if_pos hm]
+      rw [dictOf_keys_mem] at hm
+      constructor
+      · intro h; omega
+      · rintro ⟨_, _, hd⟩; exact absurd rfl (hd kv.1 hm kv.1 (by simp))
+    · rw [if_neg hm]
+      rw [dictOf_keys_mem] at hm
+      constructor
+      · intro h
+        refine ⟨ih.mp (by omega), by simp, ?_⟩
+        intro a ha b hb
+        simp only [List.mem_singleton] at hb
+        subst hb
+        intro e; subst e; exact hm ha
+      · rintro ⟨hp, _, _⟩
+        rw [ih.mpr hp]
+
+/-- `dict(pairs)` never holds a key twice -/
+theorem dictOf_keys_nodup' (l : List (κ × γ)) : ((dictOf l).map (·.1)).Nodup := by
+  induction l using List.reverseRecOn with
+  | nil => simp [dictOf]
+  | append_singleton p kv ih =>
+    rw [dictOf_append_singleton]
+    by_cases hm : kv.1 ∈ (dictOf p).map (·.1)
+    · -- the key is present: the keys are unchanged
+      have hkeys : ∀ (d : List (κ × γ)), kv.1 ∈ d.map (·.1) → (dictSet kv.1 kv.2 d).map (·.1) = d.map (·.1) := by
+        intro d
+        induction d with
+        | nil => simp
+        | cons e d ihd =>
+          intro hmem
+          simp only [dictSet]
+          by_cases h : e.1 = kv.1
+          · rw [if_pos h]; rfl
+          · rw [if_neg h]
+            simp only [List.map_cons, List.mem_cons] at hmem ⊢
+            rcases hmem with hmem | hmem
+            · exact absurd hmem.symm h
+            · rw [ihd hmem]
+      rw [hkeys _ hm]; exact ih
+    · rw [dictSet_not_mem _ _ _ hm, List.map_append, List.nodup_append]
+      refine ⟨ih, by simp, ?_⟩
+      intro a ha b hb
+      simp only [List.map_cons, List.map_nil, List.mem_singleton] at hb
+      subst hb
+      intro e; subst e; exact hm ha
+
+end Collide
+
+/-- on the sparse path `encode` returns `dict` of the named monomials -/
+theorem encode_sparse_eq_dictOf_monos (is : List Inter) (kw : List (Char × NsVal))
+    (hne : ∀ t ∈ strTerms is, t ≠ []) (hs : isSparseCall kw = true) :
+    encode Cfg.fixed is kw = .ok (.sparse (dictOf (sparseMonos is kw))) := by
+  rw [encode_sparse_eq_spec' is kw hne hs]
+  simp only [sparseMonos]
+  by_cases hc : constant is ≠ 0
+  · rw [if_pos hc, if_pos hc, dictOf_append_singleton]
+  · rw [if_neg hc, if_neg hc, List.append_nil]
+
+theorem sparse_faithful_iff' (is : List Inter) (kw : List (Char × NsVal))
+    (hne : ∀ t ∈ strTerms is, t ≠ []) (hs : isSparseCall kw = true) :
+    ∃ d, encode Cfg.fixed is kw = .ok (.sparse d) ∧
+      (((∀ kv ∈ sparseMonos is kw, kv ∈ d) ∧ d.length = (sparseMonos is kw).length)
+        ↔ ((sparseMonos is kw).map (·.1)).Nodup) := by
+  refine ⟨_, encode_sparse_eq_dictOf_monos is kw hne hs, ?_⟩
+  constructor
+  · rintro ⟨_, hl⟩; exact (dictOf_length_eq_iff_nodup' _).mp hl
+  · intro h
+    rw [dictOf_of_nodup_keys _ h]
+    exact ⟨fun _ hkv => hkv, rfl⟩
+
+theorem sparse_faithful_iff_collides' (is : List Inter) (kw : List (Char × NsVal))
+    (hne : ∀ t ∈ strTerms is, t ≠ []) (hs : isSparseCall kw = true) :
+    ∃ d, encode Cfg.fixed is kw = .ok (.sparse d) ∧ (d.map (·.1)).Nodup ∧
+      (collides is kw = false → d = sparseMonos is kw) ∧
+      (collides is kw = true → d.length < (sparseMonos is kw).length) := by
+  refine ⟨_, encode_sparse_eq_dictOf_monos is kw hne hs, dictOf_keys_nodup' _, ?_, ?_⟩
+  · intro h
+    exact dictOf_of_nodup_keys _ ((hasDup_eq_false_iff _).mp h)
+  · intro h
+    have hn := (hasDup_iff _).mp h
+    have hle := dictOf_length_le (sparseMonos is kw)
+    have := (dictOf_length_eq_iff_nodup' (sparseMonos is kw)).not.mpr hn
+    omega
+
+/-! ## Part 15 (phase 4): named input shapes — mixed dense/sparse, string-valued features, repeated letters -/
+
+theorem encode_mixed_sparse_dense_eq_spec' (is : List Inter) (c d : Char) (its : List Item) (kvs : List (Key × Item))
+    (hne : ∀ t ∈ strTerms is, t ≠ []) :
+    encode Cfg.fixed is [(c, .dense its), (d, .sparse kvs)]
+      = .ok (.sparse (
+          let enc := dictOf (termsS pairMul pairOne (featsSparse [(c, .dense its), (d, .sparse kvs)]) (dedupFirst (strTerms is)))
+          if constant is ≠ 0 then dictSet "const" (constant is) enc else enc)) :=
+  encode_sparse_eq_spec' is _ hne (by simp [isSparseCall, NsVal.isSparse])
+
+theorem termS_repeated_letter {α : Type} (mul : α → α → α) (one : α) (F : Char → List α) (c d : Char) (h : c ≠ d) :
+    termS mul one F [c, c, d] = outer mul (monos mul one 2 (F c)) (monos mul one 1 (F d)) := by
+  have hf : factors [c, c, d] = [(c, 2), (d, 1)] := by
+    simp [factors, dedupFirst, dedupAdd, h, h.symm, List.count_cons]
+  simp [termS, hf, outerAll]
+
+theorem sparseFeats_string_item (c : Char) (k : Key) (s : String) :
+    sparseFeats c (.sparse [(k, .str s)]) = [(String.singleton c ++ (k.fmt ++ s), 1)] := by
+  simp [sparseFeats, makeDict, handleEntry, dictOf, dictSet, Key.fmt]
+
+theorem sparseFeats_string_scalar (c : Char) (s : String) :
+    sparseFeats c (.scalar (.str s)) = [(String.singleton c ++ ("0" ++ s), 1)] := by
+  simp [sparseFeats, makeDict, handleEntry, dictOf, dictSet, Key.fmt]
+
+theorem encode_string_feature_onehot' (c : Char) (k : Key) (s : String) :
+    encode Cfg.fixed [.term [c]] [(c, .sparse [(k, .str s)])] = .ok (.sparse [(String.singleton c ++ (k.fmt ++ s), 1)]) := by
+  rw [encode_eq_spec' _ _ (by simp [strTerms])]
+  simp [encodeS, isSparseCall, NsVal.isSparse, featsSparse, nsVal, dictGet, sparseFeats_string_item, strTerms, dedupFirst, dedupAdd,
+    termsS, termS, factors, outerAll, monos, multichoose, mcStep, monoProd, pairMul, pairOne, dictOf, dictSet, constant]
+
+theorem encode_repeated_letter_term' (c d : Char) (h : c ≠ d) (kw : List (Char × NsVal)) (hd : isSparseCall kw = false) :
+    encode Cfg.fixed [.term [c, c, d]] kw
+      = .ok (.dense (outer ratMul (monos ratMul 1 2 (featsDense kw c)) (monos ratMul 1 1 (featsDense kw d)))) := by
+  rw [encode_dense_eq_spec' _ kw (by simp [strTerms]) (by simp [strTerms]) hd]
+  simp [strTerms, constant, termS_repeated_letter _ _ _ c d h]
+
+/-! ## Part 16 (phase 4): names are plain concatenations; equal-length names cannot collide -/
+section Blocks
+
+/-- concatenation of equal-length blocks is injective -/
+theorem flatten_inj_of_equal_length {α : Type} (L : Nat) (hL : 1 ≤ L) :
+    ∀ (a b : List (List α)), (∀ x ∈ a, x.length = L) → (∀ x ∈ b, x.length = L) →
+      a.flatten = b.flatten → a = b := by
+  intro a
+  induction a with
+  | nil =>
+    intro b _ hb h
+    cases b with
+    | nil => rfl
+    | cons y b =>
+      have hy := hb y (by simp)
+      simp only [List.flatten_nil, List.flatten_cons] at h
+      have := congrArg List.length h
+      simp only [List.length_nil, List.length_append] at this
+      omega
+  | cons x a ih =>
+    intro b ha hb h
+    cases b with
+    | nil =>
+      have hx := ha x (by simp)
+      simp only [List.flatten_nil, List.flatten_cons] at h
+      have := congrArg List.length h
+      simp only [List.length_nil, List.length_append] at this
+      omega
+    | cons y b =>
+      have hx := ha x (by simp)
+      have hy := hb y (by simp)
+      simp only [List.flatten_cons] at h
+      have hxy := List.append_inj h (by rw [hx, hy])
+      rw [hxy.1, ih b (fun z hz => ha z (by simp [hz])) (fun z hz => hb z (by simp [hz])) hxy.2]
+
+/-- the name of a monomial is the plain concatenation of the names of its features -/
+theorem monoName_toList (c : List String) :
+    (monoProd strMul "" c).toList = (c.map String.toList).flatten := by
+  induction c with
+  | nil => simp [monoProd]
+  | cons s r ih => simp [monoProd, strMul, ih]
+
+/-- two monomials (as lists of feature names) get the same name exactly when their concatenations agree -/
+theorem monoName_eq_iff (c c' : List String) :
+    monoProd strMul "" c = monoProd strMul "" c' ↔ (c.map String.toList).flatten = (c'.map String.toList).flatten := by
+  rw [← monoName_toList, ← monoName_toList]
+  constructor
+  · intro h; rw [h]
+  · intro h; exact String.toList_inj.mp h
+
+theorem monoName_length (L : Nat) (c : List String) (h : ∀ s ∈ c, s.length = L) :
+    (monoProd strMul "" c).length = c.length * L := by
+  induction c with
+  | nil => simp [monoProd]
+  | cons s r ih =>
+    have hs := h s (by simp)
+    have hr := ih (fun z hz => h z (by simp [hz]))
+    simp only [monoProd, strMul, String.length_append, hs, hr, List.length_cons]
+    rw [Nat.add_mul, Nat.one_mul, Nat.add_comm]
+
+/-- when all feature names have the same length `L ≥ 1`, monomials with the same name are the same list of features -/
+theorem monoName_inj_of_equal_length (L : Nat) (hL : 1 ≤ L) (c c' : List String)
+    (hc : ∀ s ∈ c, s.length = L) (hc' : ∀ s ∈ c', s.length = L)
+    (h : monoProd strMul "" c = monoProd strMul "" c') : c = c' := by
+  rw [monoName_eq_iff] at h
+  have h2 := flatten_inj_of_equal_length L hL _ _
+    (by intro x hx; obtain ⟨s, hs, rfl⟩ := List.mem_map.mp hx; rw [String.length_toList]; exact hc s hs)
+    (by intro x hx; obtain ⟨s, hs, rfl⟩ := List.mem_map.mp hx; rw [String.length_toList]; exact hc' s hs) h
+  exact List.map_injective_iff.mpr (fun _ _ e => String.toList_inj.mp e) h2
+
+/-- [structural no-collision condition] distinct feature names of one common length `L ≥ 1`: the names of the
+monomials of ALL degrees `0..d` over them are pairwise distinct -/
+theorem monos_names_nodup_of_equal_length' (L : Nat) (hL : 1 ≤ L) (names : List String)
+    (hnd : names.Nodup) (hlen : ∀ s ∈ names, s.length = L) (d : Nat) :
+    ((List.range (d + 1)).flatMap (fun k => monos strMul "" k names)).Nodup := by
+  have key : ∀ k c, c ∈ multichoose k names → c.length = k ∧ ∀ s ∈ c, s.length = L := by
+    intro k c hc
+    have := multichoose_sound k names c hc
+    exact ⟨this.1, fun s hs => hlen s (this.2 s hs)⟩
+  rw [List.nodup_flatMap]
+  constructor
+  · intro k _
+    unfold monos
+    refine List.Nodup.map_on ?_ (List.Nodup.of_map _ (multichoose_nodup k names hnd))
+    intro c hc c' hc' h
+    exact monoName_inj_of_equal_length L hL c c' (key k c hc).2 (key k c' hc').2 h
+  · refine List.Pairwise.imp_of_mem ?_ (List.nodup_range (n := d + 1))
+    intro k k' _ _ hne
+    simp only [Function.onFun, List.disjoint_left]
+    intro n hn hn'
+    unfold monos at hn hn'
+    obtain ⟨c, hc, rfl⟩ := List.mem_map.mp hn
+    obtain ⟨c', hc', h⟩ := List.mem_map.mp hn'
+    have h1 := monoName_length L c (key k c hc).2
+    have h2 := monoName_length L c' (key k' c' hc').2
+    rw [h, h1, (key k c hc).1, (key k' c' hc').1] at h2
+    exact hne (Nat.eq_of_mul_eq_mul_right (by omega) h2)
+
+end Blocks
+
+/-! ## Part 17 (phase 4): rounding error of `roundSig` — half a unit in the last place, relative error `2^-prec` -/
+
+theorem roundHalfEven_err (s : Rat) (hs : 0 ≤ s) : |(roundHalfEven s : Rat) - s| ≤ 1 / 2 := by
+  have hd : (0 : Rat) < (s.den : Rat) := by exact_mod_cast s.den_pos
+  have hnum : 0 ≤ s.num := Rat.num_nonneg.mpr hs
+  have hcast : ((s.num.natAbs : Nat) : Rat) = ((s.num : Int) : Rat) := by
+    rw [Nat.cast_natAbs, abs_of_nonneg hnum]
+  have hsD : s * (s.den : Rat) = (s.num.natAbs : Rat) := by rw [hcast]; exact Rat.mul_den_eq_num s
+  have hdm : ((s.den * (s.num.natAbs / s.den) + s.num.natAbs % s.den : Nat) : Rat) = (s.num.natAbs : Rat) := by
+    exact_mod_cast congrArg (fun n : Nat => (n : Rat)) (Nat.div_add_mod s.num.natAbs s.den)
+  have hlt : ((s.num.natAbs % s.den : Nat) : Rat) < (s.den : Rat) := by exact_mod_cast Nat.mod_lt _ s.den_pos
+  have h0 : (0 : Rat) ≤ ((s.num.natAbs % s.den : Nat) : Rat) := by positivity
+  push_cast at hdm
+  unfold roundHalfEven
+  simp only
+  rw [abs_le]
+  split_ifs with c1 c2 c3
+  · have c : (2 : Rat) * ((s.num.natAbs % s.den : Nat) : Rat) < (s.den : Rat) := by exact_mod_cast c1
+    constructor <;> apply le_of_mul_le_mul_right _ hd <;> nlinarith
+  · have c : (s.den : Rat) < (2 : Rat) * ((s.num.natAbs % s.den : Nat) : Rat) := by exact_mod_cast c2
+    push_cast
+    constructor <;> apply le_of_mul_le_mul_right _ hd <;> nlinarith
+  · have c : (2 : Rat) * ((s.num.natAbs % s.den : Nat) : Rat) = (s.den : Rat) := by
+      have : 2 * (s.num.natAbs % s.den) = s.den := by omega
+      exact_mod_cast this
+    constructor <;> apply le_of_mul_le_mul_right _ hd <;> nlinarith
+  · have c : (2 : Rat) * ((s.num.natAbs % s.den : Nat) : Rat) = (s.den : Rat) := by
+      have : 2 * (s.num.natAbs % s.den) = s.den := by omega
+      exact_mod_cast this
+    push_cast
+    constructor <;> apply le_of_mul_le_mul_right _ hd <;> nlinarith
+
+theorem roundSig_pos_err (prec : Nat) (a : Rat) (ha : 0 < a) :
+    |roundSig prec a - a| ≤ a / 2 ^ prec ∧ |roundSig prec (-a) - (-a)| ≤ a / 2 ^ prec := by
+  have h2 : (2 : Rat) ≠ 0 := by norm_num
+  have hlb := expo_lb prec a ha
+  have hP : (0 : Rat) < pow2 (expo prec a) := by rw [pow2_eq]; positivity
+  have hPP : pow2 (-(expo prec a)) * pow2 (expo prec a) = 1 := by
+    rw [pow2_eq, pow2_eq, ← zpow_add₀ h2]; simp
+  have hs0 : 0 ≤ a * pow2 (-(expo prec a)) := by rw [pow2_eq]; positivity
+  have herr := roundHalfEven_err _ hs0
+  have hpp : (2 : Rat) ^ ((prec : Int) - 1) = 2 ^ prec / 2 := by
+    rw [zpow_sub_one₀ h2, zpow_natCast]; rfl
+  rw [hpp] at hlb
+  generalize hm : (roundHalfEven (a * pow2 (-(expo prec a))) : Rat) = m at herr
+  have hbound : |m * pow2 (expo prec a) - a| ≤ a / 2 ^ prec := by
+    have e1 : m * pow2 (expo prec a) - a = (m - a * pow2 (-(expo prec a))) * pow2 (expo prec a) := by
+      rw [sub_mul, mul_assoc a, hPP, mul_one]
+    rw [e1, abs_mul, abs_of_pos hP, le_div_iff₀ (by positivity)]
+    have e2 : a = a * pow2 (-(expo prec a)) * pow2 (expo prec a) := by rw [mul_assoc, hPP, mul_one]
+    calc |m - a * pow2 (-(expo prec a))| * pow2 (expo prec a) * 2 ^ prec
+        ≤ 1 / 2 * pow2 (expo prec a) * 2 ^ prec := by
+          apply mul_le_mul_of_nonneg_right (mul_le_mul_of_nonneg_right herr hP.le) (by positivity)
+      _ = 2 ^ prec / 2 * pow2 (expo prec a) := by ring
+      _ ≤ a * pow2 (-(expo prec a)) * pow2 (expo prec a) := mul_le_mul_of_nonneg_right hlb hP.le
+      _ = a := e2.symm
+  constructor
+  · unfold roundSig
+    rw [if_neg ha.ne', if_neg (not_lt.mpr ha.le)]
+    simp only [if_neg (not_lt.mpr ha.le)]
+    rw [hm]; exact hbound
+  · have hneg : -a < 0 := by linarith
+    unfold roundSig
+    rw [if_neg hneg.ne, if_pos hneg]
+    simp only [if_pos hneg, neg_neg]
+    rw [hm, ← neg_sub', abs_neg]; exact hbound
+
+/-- rounding to `prec` bits has relative error at most `2^-prec` (half an ulp; no exponent limits) -/
+theorem roundSig_rel_err (prec : Nat) (q : Rat) : |roundSig prec q - q| ≤ |q| / 2 ^ prec := by
+  rcases lt_trichotomy q 0 with h | h | h
+  · have := (roundSig_pos_err prec (-q) (by linarith)).2
+    rw [neg_neg] at this
+    rw [abs_of_neg h]; exact this
+  · subst h; simp [roundSig]
+  · rw [abs_of_pos h]; exact (roundSig_pos_err prec q h).1
+
+theorem fmul53_rel_err (a b : Rat) : |fmul53 a b - a * b| ≤ |a * b| / 2 ^ 53 := roundSig_rel_err 53 (a * b)
+
+theorem floatMul_fmul53_fails : ¬ FloatMul (1 / 2 ^ 53) fmul53 := by
+  intro h
+  have := h.1 (1 / 3)
+  revert this
+  decide +kernel
+
 end Coba.C20
